@@ -23,6 +23,7 @@ pub fn run(props: &[(&str, Prop)]) {
     let mut seen = HashSet::new();
     let mut stats = Stats::default();
     let mut kept: Vec<(String, String)> = vec![];
+    let mut xkept: Vec<(String, String)> = vec![];
     let mut generated = 0u64;
     for s in specs {
         let line = s.line();
@@ -33,19 +34,24 @@ pub fn run(props: &[(&str, Prop)]) {
         if rat::overflowed() { *stats.skipped.entry("rational-overflow".into()).or_insert(0) += 1; continue; }
         match out {
             Outcome::Case(term) => { stats.bump(format!("kind:{}", s.kind)); if stats.samples.len() < 4 { stats.samples.push(format!("{} => {}", line, term)); } kept.push((line, term)); }
+            Outcome::XCase(term) => { stats.bump(format!("kind:{}", s.kind)); xkept.push((line, term)); }
             Outcome::Skip(why) => { *stats.skipped.entry(why.to_string()).or_insert(0) += 1; }
         }
     }
+    // bit-exact float / integer cases (Check/Float.v): when present, every case is injected into the sum type
+    let summode = !xkept.is_empty();
+    if summode { for c in kept.iter_mut() { c.1 = format!("inl ({})", c.1); } for (l, t) in xkept { kept.push((l, format!("inr ({})", t))); } }
     let mut specs_out = fs::File::create(format!("{}/specs.txt", outdir)).unwrap();
     for (l, _) in &kept { writeln!(specs_out, "{}", l).unwrap(); }
     let mut nshards = 0;
     for (k, chunk) in kept.chunks(SHARD).enumerate() {
         let mut f = fs::File::create(format!("{}/cases_{}.v", outdir, k)).unwrap();
         writeln!(f, "{}", p.header).unwrap();
-        writeln!(f, "Definition cases : list case := [").unwrap();
+        if summode { writeln!(f, "From Signalo Require Import Check.Float.\nDefinition cases : list (case + xcase) := [").unwrap(); }
+        else { writeln!(f, "Definition cases : list case := [").unwrap(); }
         for (i, (_, t)) in chunk.iter().enumerate() { writeln!(f, " {}{}", t, if i + 1 < chunk.len() { ";" } else { "" }).unwrap(); }
         writeln!(f, "].").unwrap();
-        writeln!(f, "Eval vm_compute in (report check cases).").unwrap();
+        if summode { writeln!(f, "Eval vm_compute in (report (either check) cases).").unwrap(); } else { writeln!(f, "Eval vm_compute in (report check cases).").unwrap(); }
         nshards += 1;
     }
     let meta = format!("{{\"generated\":{},\"cases\":{},\"shards\":{},\"shard_size\":{},\"panics\":{},\"distribution\":{},\"skipped\":{},\"samples\":[{}]}}",
